@@ -71,5 +71,8 @@ func VF_C16_PatchOverlap() {
 		}
 	}
 	vf.Assert(match, "C19/C12 the stored document is the target of a served patch (one-at-a-time outcome)")
-	vf.Assert(w.lockFreeName(utils.GetLockName("PD", 1, vfKey)), "C12 the per-document lock is free afterwards")
+	if h := utils.VFHeldLocks(); len(h) > 0 {
+		vf.Tag("_held", h[0])
+	}
+	vf.Assert(utils.VFAllLocksFree(), "C12 the per-document lock is free afterwards")
 }
